@@ -38,7 +38,7 @@ pub fn image_of(parser: &CooklangParser, input: &str) -> String {
 /// the fixed pool: identical in every process so that hashes are comparable across processes
 pub fn pool() -> Vec<String> {
     let mut v: Vec<String> = SEEDS.iter().map(|s| s.to_string()).collect();
-    v.extend(DIAG_SEEDS.iter().take(30).map(|s| s.to_string()));
+    v.extend(DIAG_SEEDS.iter().map(|s| s.to_string()));
     v.push(">> [mode]: steps\n@a\n".into());
     v.push(">> [mode]: components\n@a{1}\n".into());
     v.push(">> [duplicate]: ref\n@a{1} @a{2}\n".into());
@@ -46,12 +46,53 @@ pub fn pool() -> Vec<String> {
     v.push("@a{1} @a{2}\n".into());
     v.push("---\ntitle: x\nservings: 3\nb: 1\na: 2\n---\n@z{1%kg} @y{2%g} @x{3%lb}\n".into());
     v.push(">> z: 1\n>> y: 2\n>> x: 3\n>> servings: 2|4\nstep".into());
+    // diagnostics with several labels / hints, whose order must not depend on any per-call hash seed
+    for s in [
+        ">> prep time: 10 min\n>> cook time: 25 min\n>> time: 45 min\n\nMix @flour{200%g}.\n",
+        ">> time: 45 min\n>> cook time: 25 min\n>> prep time: 10 min\nx",
+        "---\nprep time: 10 min\ncook time: 25 min\ntime: 45 min\n---\nx",
+        "@a{1%kg} @&a{some} @&a{2%l} @&a{3} @&a{1%pinch} @&a{4%oz}",
+        "#p{big} #&p{2} #&p{1}",
+        "@a{} @&+-?a{} @b{}(n) @&b{}(m) @&-b{}",
+        ">> servings: 2|2|3|3\n>> tags: a, a, b, b\n>> locale: xx_YYY\n>> author: <x>\n>> source: a <b>",
+        ">> [mode]: components\n@a{1} @b{2} @c{3}\n>> [mode]: steps\n@&a{1} @&b{2} @&c{3} @d @e @f",
+        "@a{1/0} @b{%g} @{} #{} ~{} @c{99999999999} @&(0)d{} @&(~9)e{}",
+        "= a = b\n>> k\n>> : v\n>> k2:\n@ x # y ~ z",
+    ] {
+        v.push(s.to_string());
+    }
+    // units and numbers in text, spelled in other cases: probes for caches keyed on a normalised word
+    for s in [
+        "Add 1 Tbsp of @butter{}, 200 ML of @milk{} and wait 10 Min before serving.",
+        "Heat 2 tbsp of oil in a #pan and fry the @onion{1} for 5 min until soft.",
+        "Bake at 180 °c or 350 °F for 1 H, then 2 KG and 3 Kg and 4 kG and 5 kg.",
+        "~{5%MIN} ~{5%Min} ~{5%min} @a{1%KG} @&a{1%kg} @&a{1%Kg}",
+    ] {
+        v.push(s.to_string());
+    }
     let mut r = Rng::new(0xC18);
-    for i in 0..12 {
-        let opts = if i % 2 == 0 { GenOpts::extended() } else { GenOpts::canonical() };
+    for i in 0..24 {
+        let opts = match i % 3 {
+            0 => GenOpts::extended(),
+            1 => GenOpts::canonical(),
+            _ => GenOpts::extended_mixed(),
+        };
         let spec = g::gen_spec(&mut r, &opts);
         v.push(g::spell(&spec, i, feat::ALL, 2).text);
     }
+    // every input also in upper case, lower case and with the case of each letter flipped: inputs that collide
+    // under case folding (or differ only there) are what a stale cache, memo or interner would confuse
+    let base = v.clone();
+    for s in &base {
+        let flipped: String = s.chars().map(|c| if c.is_lowercase() { c.to_uppercase().next().unwrap_or(c) } else { c.to_lowercase().next().unwrap_or(c) }).collect();
+        for t in [s.to_uppercase(), s.to_lowercase(), flipped] {
+            if t != *s {
+                v.push(t);
+            }
+        }
+    }
+    v.sort();
+    v.dedup();
     v
 }
 
